@@ -48,3 +48,12 @@ Theorem C17_max_refuted :
     acc_max s' = Some (Some 3%Z) /\ window_max zleb [1; 9; 3]%Z 0%Z = 9%Z.
 Proof. exact acc_max_refuted. Qed.
 Print Assumptions C17_max_refuted.
+
+(* No false alarm: the boolean reading of this property that the correspondence check evaluates on the IMPLEMENTATION's
+   outputs (Check/C17.v, verdict bit 2) can never fail on outputs that agree with the model (bit 1 clear); side conditions,
+   where there are any, are boolean and say which recorded observations the model comparison does not cover. *)
+From Coq Require Import NArith.
+From Signalo Require Base.Report Check.C17 Proofs.Sound_C17.
+Theorem C17_checker_no_false_alarm : forall c : Signalo.Check.C02.case, (1 <= Signalo.Check.C02.cN c)%nat -> Signalo.Check.C02.wide (Signalo.Check.C02.cN c) = false -> N.land (Signalo.Base.Report.code (Signalo.Check.C17.check c)) 3 <> 2%N.
+Proof. exact Signalo.Proofs.Sound_C17.C17_check_sound. Qed.
+Print Assumptions C17_checker_no_false_alarm.
